@@ -390,8 +390,9 @@ def gen_program(rng, backend):
                         {"method": m, "fn": rng.choice(DF_PARSER_FNS)})
         # Config
         if rng.random() < (0.65 if parent is None else 0.5):
-            cls["config"] = gen_config(rng, plain, backend,
-                                       has_parent=parent is not None)
+            cls["config"] = gen_config(
+                rng, plain, backend, has_parent=parent is not None,
+                inherited_options=inherited["options"] if inherited else None)
     return {"backend": backend, "classes": classes}
 
 
@@ -439,7 +440,17 @@ def gen_parserdef(rng, method, plain):
     return {"method": method, "targets": [c["name"]], "fn": rng.choice(fit)}
 
 
-def gen_config(rng, plain, backend, has_parent):
+# Config options whose default is None ("not set"): a subclass may set an
+# inherited value back to None (or to another falsy value) - plain python
+# attribute overriding, the subclass's Config wins
+NONE_DEFAULT_OPTS = ("unique", "title", "description", "name", "dtype")
+FALSY_RESET = {"unique": [None, None, None, []],
+               "title": [None, None, None, ""],
+               "description": [None, None, None, ""],
+               "name": [None], "dtype": [None]}
+
+
+def gen_config(rng, plain, backend, has_parent, inherited_options=None):
     opts = {}
     if rng.random() < 0.4:
         opts["strict"] = rng.choice([True, True, False, "filter"])
@@ -457,6 +468,21 @@ def gen_config(rng, plain, backend, has_parent):
         names = [c["name"] for c in plain if isinstance(c["name"], str)]
         if names:
             opts["unique"] = rng.sample(names, min(len(names), rng.choice([1, 2])))
+    if rng.random() < 0.07 and plain:
+        # frame-level dtype ("overrides the data types specified in any of
+        # the fields"); mostly the dtype of one of the columns
+        opts["dtype"] = rng.choice([c["dtype"] for c in plain] * 3
+                                   + ["int64", "float64", "str"])
+    # a subclass may set an inherited None-default option back to None
+    # (falsy variants: unique=[], title / description = "")
+    for k in NONE_DEFAULT_OPTS:
+        if k in opts:
+            continue
+        inh = (inherited_options or {}).get(k)
+        if inh and rng.random() < 0.35:
+            opts[k] = rng.choice(FALSY_RESET[k])
+        elif not inh and rng.random() < 0.015:
+            opts[k] = None            # spelled out although nothing to reset
     # a subclass may also switch an inherited option off again
     on = (lambda: True) if not has_parent else (lambda: rng.random() < 0.7)
     if rng.random() < 0.15 and backend == "pandas":
@@ -632,6 +658,19 @@ def annotation(dtype, optional, backend, variant=0):
     return Optional[a] if optional else a
 
 
+def _frame_dtype(dtype, backend, variant=0):
+    """Config.dtype as a user would spell it (python type / dtype string /
+    the engine's own dtype object)."""
+    if dtype is None:
+        return None
+    if variant % 3 == 0 and dtype in ("int64", "float64", "str"):
+        return {"int64": int, "float64": float, "str": str}[dtype]
+    if variant % 3 == 1 and backend == "pandas" and dtype != "datetime":
+        return {"int64": "int64", "float64": "float64", "str": "str",
+                "bool": "bool"}[dtype]
+    return B.pl_dtype(dtype) if backend == "polars" else B.pd_dtype(dtype)
+
+
 def _conv(dtype, backend, x):
     return (B._pl_val if backend == "polars" else B._val)(dtype, x)
 
@@ -752,8 +791,10 @@ def build_models(prog, log=None, on_defined=None, ann_variant=0):
             ex = {k: {"scalar": v["mx"], "dict": {"mx": v["mx"]},
                       "tuple": (v["mx"],)}[v["form"]]
                   for k, v in c["config"]["extras"].items()}
-            ns["Config"] = type("Config", bases,
-                                {**c["config"]["options"], **ex})
+            co = dict(c["config"]["options"])
+            if co.get("dtype") is not None:
+                co["dtype"] = _frame_dtype(co["dtype"], backend, ann_variant)
+            ns["Config"] = type("Config", bases, {**co, **ex})
         cls = type(c["name"], (parent,), ns)
         built.append(cls)
         if on_defined:
@@ -811,6 +852,8 @@ def build_schema(flat, backend):
         checks=checks, coerce=o.get("coerce", False),
         strict=o.get("strict", False), name=flat["name"],
         ordered=o.get("ordered", False), unique=o.get("unique"),
+        dtype=(B.pl_dtype if backend == "polars" else B.pd_dtype)(
+            o.get("dtype")),
         title=o.get("title"), description=flat["description"],
         unique_column_names=o.get("unique_column_names", False),
         add_missing_columns=o.get("add_missing_columns", False),
@@ -840,17 +883,24 @@ def gen_spec_of(flat):
     o = flat["options"]
     return {"kind": "frame", "columns": cols, "index": None,
             "strict": o.get("strict", False), "ordered": o.get("ordered", False),
-            "unique": o.get("unique"), "report_duplicates": "all",
+            "unique": o.get("unique") or None, "report_duplicates": "all",
             "unique_column_names": o.get("unique_column_names", False),
             "add_missing_columns": o.get("add_missing_columns", False),
             "coerce": o.get("coerce", False),
             "drop_invalid_rows": o.get("drop_invalid_rows", False),
-            "dtype": None}
+            "dtype": o.get("dtype")}
 
 
-def gen_frame(rng, flat, backend):
-    """(table, mutations) near the flat description."""
+def gen_frame(rng, flat, backend, aim=None):
+    """(table, mutations) near the flat description.  ``aim`` = column names
+    some ancestor declared jointly unique (and this class maybe no longer):
+    the row-duplicating mutation then repeats a row in exactly those."""
     gs = gen_spec_of(flat)
+    if gs["dtype"] is not None and (rng.random() < 0.4 or any(
+            c["checks"] and c["dtype"] != gs["dtype"] for c in gs["columns"])):
+        # frames that ignore the frame-level dtype (and: the table generator
+        # cannot evaluate a column's checks on values of another dtype)
+        gs["dtype"] = None
     # the table generator indexes regex labels by pattern and str names only
     ren = {}
     for c in gs["columns"]:
@@ -864,6 +914,16 @@ def gen_frame(rng, flat, backend):
     muts = []
     if rng.random() < 0.6:
         muts = G.mutate(rng, gs, table)
+    nrows = max([len(c["values"]) for c in table["columns"]] or [0])
+    if nrows >= 2 and rng.random() < (0.5 if aim else 0.12):
+        # repeat one row in another position: in the columns ``aim`` only,
+        # or in every column (violates any joint uniqueness constraint)
+        tgt = [c for c in table["columns"] if not aim or c["name"] in aim]
+        if tgt and all(len(c["values"]) == nrows for c in tgt):
+            i, j = rng.sample(range(nrows), 2)
+            for c in tgt:
+                c["values"][j] = c["values"][i]
+            muts = list(muts) + [("dup_row", "aimed" if aim else "all")]
     if backend == "polars":
         # polars frames cannot carry duplicate labels
         seen, cols = set(), []
